@@ -31,6 +31,42 @@ pub fn tokens_json(tokens: &[Token]) -> Value {
 
 pub const UNCLOSED: &str = "The file has unclosed comment blocks";
 
+/// Lexer!Unterminated (MarkR, character by character): is the text still inside a block comment where it ends?
+/// The documented panic is sanctioned for exactly these inputs.
+pub fn unterminated(text: &str) -> bool {
+    let s: Vec<char> = text.chars().collect();
+    let (mut i, mut nest, mut in_line) = (0usize, 0u32, false);
+    while i < s.len() {
+        let ch = s[i];
+        let nx = if i + 1 < s.len() { s[i + 1] } else { '\n' };
+        if ch == '\n' {
+            in_line = false; // a line break ends a "--" comment, not a block comment
+            i += 1;
+        } else if nest > 0 {
+            if ch == '*' && nx == '/' {
+                nest -= 1;
+                i += 2;
+            } else if ch == '/' && nx == '*' {
+                nest += 1;
+                i += 2;
+            } else {
+                i += 1;
+            }
+        } else if in_line {
+            i += 1;
+        } else if ch == '-' && nx == '-' {
+            in_line = true;
+            i += 2;
+        } else if ch == '/' && nx == '*' {
+            nest = 1;
+            i += 2;
+        } else {
+            i += 1;
+        }
+    }
+    nest > 0
+}
+
 pub fn replay(input: &str, out: &mut Out) {
     let (mut n, mut bad, mut unterminated, mut nontrivial) = (0u64, 0u64, 0u64, 0u64);
     let mut shown = 0;
@@ -117,6 +153,20 @@ fn locations_ok(text: &str, tokens: &[Token]) -> Option<String> {
 }
 
 const SEPS: [&str; 8] = ["", " ", "\t", "\r\n", "\n", " -- c\n", " /* c */ ", " /* a /* b */ c */ "];
+const WIDE: usize = 70_000;
+
+fn push_sep(out: &mut String, k: usize) {
+    match k {
+        // Relayout.tla 8, 9: whatever follows on the line starts beyond column 65 535
+        8 => out.extend(std::iter::repeat(' ').take(WIDE)),
+        9 => {
+            out.push_str(" /*");
+            out.extend(std::iter::repeat('c').take(WIDE));
+            out.push_str("*/ ");
+        }
+        _ => out.push_str(SEPS[k]),
+    }
+}
 
 fn relayout_text(text: &str, tokens: &[Token], plan: &[u64], shift: usize) -> String {
     let lines: Vec<Vec<char>> = text.lines().map(|l| l.chars().collect()).collect();
@@ -148,7 +198,7 @@ fn relayout_text(text: &str, tokens: &[Token], plan: &[u64], shift: usize) -> St
                     if k == 0 && (both_text || !adjacent) {
                         k = 1; // nothing is only legal where nothing was needed
                     }
-                    out.push_str(SEPS[k]);
+                    push_sep(&mut out, k);
                 }
             }
         }
